@@ -85,6 +85,16 @@ CHECKS = {
     text="(a) model_checking: senders x flusher interleavings of Peer.Send / processSendQueue at gate granularity; every edge executed on the real peer with a recording gossip sender; what reached the transport after each step must be the model's (once, in order). (b)-(d) exploration: all frames of <=3(4) messages with sizes around the bound through the real Frame.Split; the real processSendQueue with 4-11 MiB messages; ids over 4 ssids x 6 times (decode, order, uniqueness incl. concurrent creation); message/frame codecs on boundary classes.",
     note="The 10 MiB bound is exercised with real large messages only in the drain cases; schedules use small messages. Peer activity (30 s) is not advanced.",
     ref="4.7, 4.8, 5/C19"),
+ "C15": dict(
+    level="fault_enumeration", technique="TLA+ spec Durable.tla (begin / commit / ack / crash / reopen) model-checked with TLC; traces recorded from a real storing child process (storage.SSD) killed with SIGKILL at seeded points or stopped cleanly, and from the fresh process that reopens the directory, validated by TLC (Durable_Trace)",
+    text="Chains of 3-4 restart cycles on one directory: a child process stores random messages announcing begin/ack on a pipe and is SIGKILLed right after a seeded acknowledgement, a few hundred microseconds after a seeded begin (inside Store), at a seeded instant, or closed cleanly; a fresh process reopens the store and lists every message. TLC validates acked subset-of recovered subset-of attempted, identical id/channel/payload/ttl, nothing that was recovered once disappears later, and that the store reopens.",
+    note="Process kill, not power loss (SyncWrites=false). Crash instants are sampled: 12 kills (quick) / ~200 (thorough).",
+    ref="4.4, 5/C15"),
+ "C20": dict(
+    level="exploration", technique="abstract codec contract Codec.tla (round trip, injectivity, rejection, total-or-error) evaluated by TLC on events recorded from the real license codecs and key ciphers over TLC-enumerated boundary classes",
+    text="TLC enumerates boundary classes (key field patterns x permission bytes; key strings of wrong length or with one invalid character at 5 positions; license strings truncated / flipped / re-suffixed / empty / garbage for v1-v3); the real EncryptKey/DecryptKey/Parse/String/Cipher are run on them (20 (quick) / 2000 (thorough) random members per class) and TLC evaluates the contract on every event.",
+    note="The XTEA / Salsa20 arithmetic is not specified in TLA+; the specification states the algebraic contract only (thin by design, see DESIGN 5/C20).",
+    ref="4.8, 5/C20"),
 }
 
 NOT_YET = "check not built yet in this session (planned, see DESIGN.md section 5); not claimed until its machinery exists"
